@@ -178,6 +178,8 @@ def make_dep5(rng, clean=False):
     for j in range(rng.randint(1, 6)):
         pats = rng.sample(CLEAN_PATTERNS if clean else PATTERNS, rng.randint(1, 3))
         cops = [f"20{10 + j} Holder{j}"] + ([f"1999 Second{j} <s@example.com>"] if rng.random() < 0.4 else [])
+        if rng.random() < 0.35:
+            cops.append("Copyright (C) 2015 Shared Holder")
         lic = rng.choice(["MIT", "GPL-3.0-or-later", "Apache-2.0 OR MIT", "CC0-1.0"])
         lines = ["Files: " + rng.choice([" ", "\n ", "  "]).join(pats)]
         lines.append("Copyright: " + cops[0])
@@ -209,13 +211,21 @@ def make_dep5(rng, clean=False):
     return head + "\n" + "\n\n".join(paras) + "\n"
 
 
-def norm_lint(stdout, root):
+def norm_lint(stdout, root, cwd=None):
     data = json.loads(stdout)
+    from .. import trees as _t
+
+    def np(x):
+        # file paths are printed relative to where the command ran; identifiers are left alone
+        if isinstance(x, str) and cwd is not None and (os.path.lexists(os.path.join(str(cwd), x)) or os.path.lexists(os.path.join(str(root), x))):
+            return _t.norm_path(x, root, cwd)
+        return x
+
     files = {}
     for f in data["files"]:
-        files[f["path"]] = (sorted(c["value"] for c in f["copyrights"]), sorted(e["value"] for e in f["spdx_expressions"]),
-                            sorted((c["value"], c["source_type"]) for c in f["copyrights"] if c["source_type"] not in ("dep5", "reuse-toml")))
-    nc = {k: (sorted(v) if isinstance(v, list) else {a: sorted(b) if isinstance(b, list) else b for a, b in v.items()})
+        files[np(f["path"])] = (sorted(c["value"] for c in f["copyrights"]), sorted(e["value"] for e in f["spdx_expressions"]),
+                                sorted((c["value"], c["source_type"]) for c in f["copyrights"] if c["source_type"] not in ("dep5", "reuse-toml")))
+    nc = {k: (sorted(np(x) for x in v) if isinstance(v, list) else {a: sorted(np(x) for x in b) if isinstance(b, list) else np(b) for a, b in v.items()})
           for k, v in data["non_compliant"].items()}
     return files, nc, data["summary"]["compliant"]
 
@@ -230,6 +240,9 @@ def run_tree(case, ctx, res):
             p.parent.mkdir(parents=True, exist_ok=True)
             if n.endswith(".png"):
                 p.write_bytes(b"\x89PNG\r\n\x1a\n\x00\x00\x00\rIHDR" + bytes(range(128, 200)))
+            elif rng.random() < 0.25:
+                # the header states, letter for letter, a notice that the dep5 states for the same file as well
+                p.write_text("# Copyright (C) 2015 Shared Holder\n# SPDX-License-Identifier: 0BSD\ncontent\n")
             elif rng.random() < 0.3:
                 p.write_text("# SPDX-FileCopyrightText: 2001 In File\n# SPDX-License-Identifier: 0BSD\ncontent\n")
             else:
@@ -256,7 +269,7 @@ def run_tree(case, ctx, res):
         if r1.escaped or r1.exit_code == 2:
             res.cell("dep5-rejected-before")
             return
-        before = norm_lint(r1.stdout, root)
+        before = norm_lint(r1.stdout, root, str(root))
         from .. import trees as _trees
 
         ccwd, cgargs = _trees.place_lint(rng, root)
@@ -276,12 +289,16 @@ def run_tree(case, ctx, res):
                 res.violation("conversion-touches-link-target", f"dep5 reached through a link ({linked}): the directory it lives in went from {shared_before} "
                               f"to {now}; REUSE.toml outside the project: {os.path.exists(shared / 'REUSE.toml')}")
                 return
-        r2 = run_cli(["--no-multiprocessing", "--root", str(root), "lint", "--json"], cwd=str(root))
+        # the same question asked again, possibly from elsewhere and with the root spelled differently: same answer
+        lcwd, lgargs = _trees.place_lint(rng, root)
+        if not lgargs:
+            lgargs = ["--root", str(root)]
+        r2 = run_cli(["--no-multiprocessing"] + lgargs + ["lint", "--json"], cwd=lcwd)
         if r2.escaped or r2.exit_code == 2:
             res.violation("converted-toml-rejected", f"lint rejects the generated REUSE.toml: {(r2.stderr or r2.stdout)[-300:]}", dep5=text,
                           toml=(root / "REUSE.toml").read_text())
             return
-        after = norm_lint(r2.stdout, root)
+        after = norm_lint(r2.stdout, root, lcwd)
         if before != after:
             diffs = [p for p in set(before[0]) | set(after[0]) if before[0].get(p) != after[0].get(p)]
             key = "lint-differs-after-conversion"
@@ -298,7 +315,9 @@ def run_tree(case, ctx, res):
             elif diffs and "\\*" in text:
                 key = "escaped-asterisk-converted"
             res.violation(key, f"lint report differs after conversion for {diffs[:4]}: before {[before[0].get(p) for p in diffs[:2]]} after {[after[0].get(p) for p in diffs[:2]]}",
-                          dep5=text, toml=(root / "REUSE.toml").read_text())
+                          dep5=text, toml=(root / "REUSE.toml").read_text(),
+                          other=[(k, before[1].get(k), after[1].get(k)) for k in set(before[1]) | set(after[1]) if before[1].get(k) != after[1].get(k)][:4],
+                          lint_from=[lcwd, lgargs])
             return
         if text.count("Files:") >= 2:
             res.sigs.add(short_hash(text))
